@@ -167,6 +167,13 @@ func rR1(c *Ctx, plugins ...string) {
 				want := strings.TrimSuffix(nh.Origin, ".Name()") + ".Type()"
 				// the same type with another struct tag (its text went through a format) has the same memory layout
 				got := strings.TrimPrefix(strings.TrimPrefix(th.Origin, "mangled:"), "bypass:")
+				// the underlying type of a field type that this path established not to be exported by its package (its name cannot
+				// be written outside that package; the underlying type has the same memory layout)
+				if got == want+".Underlying()" {
+					if d, ok := rs.Run.decision("B:" + want + ".Obj().Exported()"); ok && d.Choice == 1 {
+						got = want
+					}
+				}
 				if got != want && !badCast {
 					badCast = true
 					c.Rep.fail(Finding{Rule: "R1", Key: fmt.Sprintf("R1|%s|unsafe-cast-type", p), Plugin: p, Script: rs.Run.Script,
